@@ -43,6 +43,31 @@ class Obligation(object):
     return "(set-logic ALL)\n" + s.to_smt2()
 
 
+_QCACHE = {}
+
+
+def has_quantifier(e):
+  k = e.get_id()
+  r = _QCACHE.get(k)
+  if r is not None:
+    return r
+  todo = [e]
+  seen = set()
+  r = False
+  while todo:
+    x = todo.pop()
+    i = x.get_id()
+    if i in seen:
+      continue
+    seen.add(i)
+    if z3.is_quantifier(x):
+      r = True
+      break
+    todo.extend(x.children())
+  _QCACHE[k] = r
+  return r
+
+
 def is_z3(v):
   return isinstance(v, z3.ExprRef)
 
@@ -97,7 +122,20 @@ class Ctx(object):
     if z3.is_false(cond):
       raise PathEnd()
     self.pc.append(cond)
-    self.solver.add(cond)
+    self._add(cond)
+
+  def _add(self, cond):
+    """the feasibility solver only sees quantifier-free facts (a weaker theory can only make
+    more branches look feasible, which is sound); covers use the full path condition"""
+    if not has_quantifier(cond):
+      self.solver.add(cond)
+
+  def full_feasible(self):
+    s = z3.Solver()
+    s.set('timeout', 2000)
+    for a in self.pc:
+      s.add(a)
+    return s.check() != z3.unsat
 
   def _feasible(self, cond):
     self.explorer.feas_queries += 1
@@ -141,7 +179,7 @@ class Ctx(object):
     self.pos += 1
     c = cond if d else z3.Not(cond)
     self.pc.append(c)
-    self.solver.add(c)
+    self._add(c)
     if hint:
       self.path_events.append("%s=%s" % (hint, bool(d)))
     return bool(d)
@@ -177,7 +215,14 @@ class Ctx(object):
 
   def cover(self, label):
     """Reachability cover: this point must be reachable on some path (vacuity guard)."""
-    self.covers.append((label, self.feasible_now()))
+    if label in self.explorer.covers_hit:
+      self.covers.append((label, True))
+      return
+    # cheap first (quantifier-free part unsat => certainly unreachable), then the full path condition
+    hit = self.feasible_now() and self.full_feasible()
+    if hit:
+      self.explorer.covers_hit.add(label)
+    self.covers.append((label, hit))
 
   def stop(self):
     raise PathEnd()
@@ -191,6 +236,7 @@ class Explorer(object):
     self.work = []
     self.max_paths = max_paths
     self.feas_queries = 0
+    self.covers_hit = set()
 
   def push(self, trace):
     self.work.append(trace)
@@ -198,6 +244,7 @@ class Explorer(object):
   def explore(self, unit_name, run):
     """returns (obligations, covers_hit, n_paths, n_completed)"""
     self.work = [[]]
+    self.covers_hit = set()
     obligations = []
     covers = {}
     n_paths = 0
